@@ -48,6 +48,8 @@ def run(ctx, rep):
                   ("C10.e", "index/pack removal order")):
         rep.rule(r, tx)
     from rules import C17, C02, C03
+    rep.rule("C10.h", "used-blob bookkeeping of prune (= C02.f)")
+    C02.used_bookkeeping_rule(ctx, rep, "C10.h")
     C17.check_extend_sites(ctx, rep, "C10.a")
     n = borrow(rep, ctx, C02, lambda o: o.rule == "C02.c", "C10.b")
     rep.floor("C10.b", "borrowed obligations", n, 5)
